@@ -102,6 +102,10 @@ def cases(block):
         for n in (2, 3):
             for idx in itertools.permutations(range(len(V)), n):
                 yield {"gridseq": [V[i] for i in idx], "shape": shape}
+        # the same spacings in other length units (nanometres, megametres): absolute roundings of the spacing must not identify two grids
+        for unit in (1e-9, 1e-12, 1e6):
+            for idx in itertools.permutations(range(len(V)), 2):
+                yield {"gridseq": [[unit * x for x in V[i]] for i in idx], "shape": shape}
         return
     shape, alph, pre = block["shape"], block["alph"], block["prefix"]
     n = int(np.prod(shape))
@@ -175,7 +179,13 @@ def run_gridseq(case, ctx):
         return out
 
     res = core.in_fork(body)
-    alone = [core.in_fork(lambda dx=dx: (lambda g: gsf(ScalarField(g, f), smoothing=0.4 * TWO_PI / max(n * d for n, d in zip(shape, dx)), wave_numbers=[TWO_PI / max(n * d for n, d in zip(shape, dx)), 2 * TWO_PI / max(n * d for n, d in zip(shape, dx))]))(make_grid(shape, dx, 0.0))) for dx in case["gridseq"]]
+    def one(dx):
+        # exactly the same argument expressions as in the sequence above (a different rounding of kmin would be a different request)
+        g = make_grid(shape, dx, 0.0)
+        kmin = TWO_PI / max(n * d for n, d in zip(shape, dx))
+        return gsf(ScalarField(g, f), smoothing=0.4 * kmin, wave_numbers=[kmin, 2 * kmin])
+
+    alone = [core.in_fork(lambda dx=dx: one(dx)) for dx in case["gridseq"]]
     ctx.op(2 * len(res))
     ctx.count("grid-sequences")
     for i, (dx, (k, S, ks, Ss)) in enumerate(zip(case["gridseq"], res)):
